@@ -110,6 +110,10 @@ def gen(prop, stream, tier, avoid):
                             "at": rng.weighted([(["knot", rng.randrange(8)], 5), (["new", rng.randint(1, 127)], 3),
                                                 (["end", rng.randrange(2)], 2)]),
                             "excess": rng.pick([1, 1, 2])})
+        elif k == "remove" and rng.chance(0.15):
+            # a removal request the library has to refuse: more copies than the knot has, or a parameter that is not a knot
+            ops.append({"op": "reject_remove", "obj": o, "via": rng.pick(["method", "operations"]), "dir": rng.randrange(nd),
+                        "what": rng.pick(["too_many", "not_a_knot"]), "which": rng.randrange(8), "t": (2 * rng.randint(0, 63) + 1) / 256.0})
         elif k == "remove":
             ndirs = 1 if rng.chance(0.75) else rng.randint(1, nd)
             dirs = {}
@@ -560,6 +564,45 @@ def run(script, ctx):
             ctx.ops_executed += 1
             ctx.probe("refine_as_source_of_removable_knots")
             _check_function(ctx, lv, what, prop, sig, h64(base_seed, idx), as_precondition=True)
+            _touch_others(world, lv, None)
+            continue
+
+        if k == "reject_remove":
+            if prop != "C06":
+                ctx.ops_skipped += 1
+                continue
+            d = op["dir"] % lv.nd
+            a_, L_ = lv.aL[d]
+            if op["what"] == "too_many":
+                ik = lv.interior(d)
+                if not ik:
+                    ctx.ops_skipped += 1
+                    continue
+                u = ik[op["which"] % len(ik)]
+                r = lv.mult(d, u) + 1
+            else:
+                u = a_ + L_ * op["t"]            # odd multiple of 1/256: not a knot unless refinement went that deep
+                if lv.mult(d, u) > 0 or not (lv.knots[d][0] < u < lv.knots[d][-1]):
+                    ctx.ops_skipped += 1
+                    continue
+                r = 1
+            params = [None] * lv.nd
+            nums = [0] * lv.nd
+            params[d], nums[d] = u, r
+            what = "refused remove_knot(%s) params=%r nums=%r (%s)" % (op["via"], params, nums, op["what"])
+            try:
+                _call_remove(lv, op["via"], params, nums)
+                outcome = "returned"
+            except Exception as e:
+                outcome = type(e).__name__
+            ctx.fault("rejected_remove")
+            ctx.log("reject_remove", op["obj"], params, nums, outcome)
+            ctx.ops_executed += 1
+            # nothing is asserted about HOW the request is refused; but nothing removable was removed, so the object must still
+            # describe the original function with the knot vectors and sizes the history so far implies
+            _check_structure(ctx, lv, what, sig)
+            _check_function(ctx, lv, what, prop, sig, h64(base_seed, idx))
+            _check_evalpts(ctx, lv, what, sig)
             _touch_others(world, lv, None)
             continue
 
